@@ -3,6 +3,11 @@
    types, as the [UserFn] instance the correspondence check evaluates the model with.
      tag 6  Acc{N int}   sum of the N fields
      tag 7  Lim{N int}   sum of the N fields, error when the sum exceeds 5
+     tag 9  Num (an interface type; the function is registered for the interface type itself,
+            so ConcatItems[Num] does not look at the dynamic types of the chunks): sum of the
+            Val() of the non-nil chunks; payload = Val(), 0 for a nil chunk.  Only valid as the
+            static chunk type of a stream (under a map key the dynamic types NumA / NumB count,
+            and they are not registered): the harness uses tag 9 at top level only.
    and, for the refutation example only, a function that does not satisfy the laws
      tag 6  (count_user)  the number of chunks. *)
 From Eino Require Import Base.Util Model.Concat.
@@ -14,6 +19,7 @@ Definition E_USER : N := 7%N.      (* the error of a registered function *)
 Definition harness_ufn (tag : N) : option (list N -> res N) :=
   if N.eqb tag 6 then Some (fun ps => Ok (nsum ps))
   else if N.eqb tag 7 then Some (fun ps => if N.leb (nsum ps) 5 then Ok (nsum ps) else Err E_USER)
+  else if N.eqb tag 9 then Some (fun ps => Ok (nsum ps))
   else None.
 
 Definition harness_user : UserFn := {| ufn := harness_ufn |}.
